@@ -56,6 +56,9 @@ func (x *RoundRobin) Set(nodes ...*Node) {
 func (x *RoundRobin) Next() *Node {
 	x.locker.Lock()
 	defer x.locker.Unlock()
-	n := atomic.AddUint32(&x.next, 1)
-	return x.nodes[(int(n)-1)%len(x.nodes)]
+	// keep the cursor reduced modulo the pool size so the rotation stays cyclic
+	// and in range where an ever-growing counter would wrap around
+	idx := atomic.LoadUint32(&x.next) % uint32(len(x.nodes))
+	atomic.StoreUint32(&x.next, idx+1)
+	return x.nodes[idx]
 }
